@@ -58,6 +58,8 @@ type (
 
 		state   clientConnectionState
 		stateMu sync.RWMutex
+		// Incremented by Close. An `open` that was requested before the last Close must not connect anymore.
+		closeGen uint64
 
 		eio            eio.ClientSocket
 		eioPacketQueue *packetQueue
@@ -243,12 +245,19 @@ func (m *Manager) onError(err error) {
 }
 
 func (m *Manager) Open() {
-	go m.open()
+	go m.open(m.closeGeneration())
 }
 
-func (m *Manager) open() {
+func (m *Manager) closeGeneration() uint64 {
+	m.stateMu.RLock()
+	defer m.stateMu.RUnlock()
+	return m.closeGen
+}
+
+// closeGen is the value of `closeGeneration` at the time the open was requested (`open` runs on its own goroutine).
+func (m *Manager) open(closeGen uint64) {
 	m.debug.Log("Opening")
-	err := m.connect(false)
+	err := m.connect(false, closeGen)
 	if err != nil {
 		m.cleanup()
 		m.maybeReconnectOnOpen()
@@ -321,6 +330,7 @@ func (m *Manager) Close() {
 
 	m.stateMu.Lock()
 	m.state = clientConnStateDisconnected
+	m.closeGen++
 	m.stateMu.Unlock()
 
 	m.skipReconnectMu.Lock()
